@@ -46,7 +46,7 @@ func init() {
 		Explain: "Decides: all shared client state is accessed under client.lock, writes under the write lock, helpers documented as needing the lock are checked at their call sites (C15.lock, lockset analysis); every change of client.metadata is followed in the same function by the matching change of the derived partition lists, which are rebuilt from setPartitionCache for both partition sets (C15.pair); updateMetadata's switch on the topic error has the tabled effect per class (stored / retry / error) and drops the old entry first (C15.classes); " +
 			"the derived lists are sorted and the writable list omits exactly the leaderless partitions (C15.sorted-writable); cachedLeader returns a broker only if it is registered and the partition has a leader (C15.leader); the broker set is reconciled with each response (C15.brokers); every candidate-iteration loop sets the failed broker aside before trying the next and resurrects the dead seeds before retrying (C15.progress); read paths refresh at most once on a miss (C15.miss). " +
 			"NOT covered: folding of arbitrary response sequences, what concurrent readers observe beyond the lock discipline, reachability of brokers.",
-		Rules: []func(*Ctx){c15Lock, c15Pair, c15Classes, c15SortedWritable, c15Leader, c15Brokers, c15Progress, c15Miss, c15ReadSets, c15ErrLost, c15EncodeErrorClass, c15Deadline, c14ReopenableAfterClose, c15PopOnlyHeadSeed, c15IOErrorNotAuthVerdict, c14FailedOpenReopenable, c14CloseTeardownComplete, c15TopicTableRebuilt, c15RecursiveLock},
+		Rules: []func(*Ctx){c15Lock, c15Pair, c15Classes, c15SortedWritable, c15Leader, c15Brokers, c15Progress, c15Miss, c15ReadSets, c15ErrLost, c15EncodeErrorClass, c15Deadline, c14ReopenableAfterClose, c15PopOnlyHeadSeed, c15IOErrorNotAuthVerdict, c14FailedOpenReopenable, c14CloseTeardownComplete, c15TopicTableRebuilt, c15RecursiveLock, c15EmptyNotNil},
 	})
 }
 
